@@ -250,6 +250,24 @@ theorem com_single_pixel_is_its_frequency (nx ny a b : Nat) (ha : a < nx) (hb : 
     rw [h.1, h.2, coords_shifted, coords_shifted]
     simp [List.getD_eq_getElem?_getD, ha, hb]
 
+/-- **In mrad too, and for every brightness**: with the angular coordinates of `angular_coordinates` (C14) a single pixel
+of brightness `w ≠ 0` at storage position `(a, b)` has centre of mass equal to its scattering angle — FFT frequency index
+times the angular sampling for un-shifted patterns, `(a − ⌊nx/2⌋)·sx` for centred ones. -/
+theorem com_single_pixel_is_its_angle (nx ny a b : Nat) (ha : a < nx) (hb : b < ny) (sx sy w : Rat) (hw : w ≠ 0) :
+    centerOfMass nx ny (fun i j => if i = a ∧ j = b then w else 0) sx sy false "mrad"
+      = .ok ((fftfreqIndex nx a : Rat) * sx, (fftfreqIndex ny b : Rat) * sy) ∧
+    centerOfMass nx ny (fun i j => if i = a ∧ j = b then w else 0) sx sy true "mrad"
+      = .ok ((((a : Int) - (nx : Int) / 2 : Int) : Rat) * sx, (((b : Int) - (ny : Int) / 2 : Int) : Rat) * sy) := by
+  unfold centerOfMass
+  simp only [if_true]
+  constructor
+  · have h := com_single_pixel nx ny a b ha hb w hw (fun i => (angularCoords nx sx false).getD i 0) (fun j => (angularCoords ny sy false).getD j 0)
+    rw [h.1, h.2, AbtemVerif.Props.C14.angularCoords_unshifted nx sx (by omega), AbtemVerif.Props.C14.angularCoords_unshifted ny sy (by omega)]
+    simp [List.getD_eq_getElem?_getD, ha, hb]
+  · have h := com_single_pixel nx ny a b ha hb w hw (fun i => (angularCoords nx sx true).getD i 0) (fun j => (angularCoords ny sy true).getD j 0)
+    rw [h.1, h.2, AbtemVerif.Props.C14.angularCoords_shifted nx sx (by omega), AbtemVerif.Props.C14.angularCoords_shifted ny sy (by omega)]
+    simp [List.getD_eq_getElem?_getD, ha, hb]
+
 theorem centerOfMass_rejects_unknown_units (nx ny : Nat) (I : Nat → Nat → Rat) (sx sy : Rat) (sh : Bool) (u : String)
     (h1 : u ≠ "mrad") (h2 : u ≠ "1/Å") : centerOfMass nx ny I sx sy sh u = .error "value_error" := by
   simp [centerOfMass, h1, h2]
@@ -333,6 +351,12 @@ theorem integrate_gradient_recovers_field_up_to_mean (N : ℕ) [NeZero N] (kx ky
     rw [ZMod.dft_apply_zero]
   simp only [Pi.sub_apply, Pi.smul_apply, smul_eq_mul, hdc]
   ring
+
+/-- The hypothesis of the field theorems is not vacuous: for every field `φ` and every frequency assignment the
+spectral derivative `F⁻¹(2πi·k·F φ)` is a gradient component that satisfies it. -/
+theorem spectral_gradient_satisfies_hypothesis {ι : Type*} [Fintype ι] (P : FourierPair ι) (kx : ι → ℝ) (φ : ι → ℂ) (k : ι) :
+    P.F (P.Finv (fun q => 2 * Real.pi * Complex.I * kx q * P.F φ q)) k = 2 * Real.pi * Complex.I * kx k * P.F φ k := by
+  rw [P.inv_right]
 
 /-- For every Fourier pair with a zero-frequency index (`HasDC`: `F x z = Σ x`, constants have no other component — the
 1-D and 2-D DFT, `zmodPair_hasDC`, `zmodPair2_hasDC`) the inverse transform of the zero-mode delta is the constant `1/N`. -/
